@@ -116,6 +116,8 @@ def run(ctx):
     if uses is not None:
         why = None
         n_ok = 0
+        # the flag may be computed by a helper method: its returning paths stand for the paths of parse()
+        uses = [c2 for cs in uses for c2 in symex.expand_helper_value(cs, gm.methods('LatexGeneralNodesParser'))]
         for cs in uses:
             defs = cs.env.get('#def', {})
             tokm = [k for k, d in defs.items() if isinstance(d, ast.Call) and call_name(d) == 'stop_token_condition_met']
